@@ -140,6 +140,10 @@ var zones = []*time.Location{time.FixedZone("", 5*3600+1800), time.FixedZone("",
 // Date returns a whole-second instant; one in four carries a non-UTC location.
 func (g *G) Date() time.Time {
 	d := g.date()
+	if g.R.P(1, 4) {
+		// a time.Time usually has a sub-second part (time.Now()); KMIP carries the whole second it lies in
+		d = d.Add(time.Duration(1+g.R.Intn(999)) * time.Millisecond)
+	}
 	if y := d.UTC().Year(); y > 1 && y < 9999 && g.R.P(1, 4) {
 		return d.In(zones[g.R.Intn(len(zones))])
 	}
